@@ -254,6 +254,56 @@ func propC06(c *ctx) error {
 			}
 		}
 	}
+	// ---- built-in functions are the LAST resort everywhere: a user-supplied name that collides with a built-in (from the
+	// data, the global scope, an outer with, an outer range variable) wins at the top level, inside with bodies,
+	// inside range bodies (own attributes, descendants, nested ranges) and inside fragments inserted there.
+	{
+		frag := `<template :define="fb"><q :text="[${NAME}]">o</q></template>`
+		contexts := []string{
+			`<p :text="[${NAME}]">o</p>`,
+			`<div :with="z := ${1}"><p :text="[${NAME}]" :title="[${NAME}]">o</p></div>`,
+			`<ul><li :range="_, it : two" :text="[${NAME}]">o</li></ul>`,
+			`<ul><li :range="_, it : two" :title="[${NAME}]"><b :text="[${NAME}]">o</b></li></ul>`,
+			`<ul><li :range="_, it : two"><i :range="_, jt : two" :text="[${NAME}]">o</i></li></ul>`,
+			`<ul><li :range="_, it : two" :insert="fb">o</li></ul>`,
+			`<ul><li :range="_, it : two"><b :with="z := ${it}" :replace="fb">o</b></li></ul>`,
+			`<p :if="${NAME == 'U'}" :text="[${NAME}]">o</p>`,
+		}
+		for _, name := range []string{"len", "string", "print", "int", "isNil", "cap", "true"} {
+			for _, level := range []string{"data", "global", "with", "range"} {
+				for ci, ctxt := range contexts {
+					body := strings.ReplaceAll(frag+ctxt, "NAME", name)
+					data := []kv{{"two", vIntSlice(1, 2)}, {"us", vAnySlice(vStr("U"))}}
+					var global any
+					tpl := body
+					switch level {
+					case "data":
+						data = append(data, kv{name, vStr("U")})
+					case "global":
+						global = vMap(kv{name, vStr("U")}).j
+					case "with":
+						tpl = strings.ReplaceAll(frag, "NAME", name) + `<section :with="` + name + ` := ${'U'}">` + strings.ReplaceAll(ctxt, "NAME", name) + `</section>`
+					case "range":
+						tpl = strings.ReplaceAll(frag, "NAME", name) + `<section :range="_, ` + name + ` : us">` + strings.ReplaceAll(ctxt, "NAME", name) + `</section>`
+					}
+					rc := &renderCase{Files: [][2]string{{"t", tpl}}, Tpl: "t", Data: vMap(data...).j, Global: global}
+					impl, _, err := compareRender(c, rc, true)
+					if err != nil {
+						return err
+					}
+					res.eval("bi|"+tpl+level, true, J{"tpl": tpl, "level": level})
+					res.S3Checked++
+					res.count("builtin_collision_cases")
+					out := impl.text()
+					probes := strings.Count(out, "[")
+					if impl.St != "ok" || probes == 0 || strings.Count(out, "[U]") != probes {
+						res.violate(rc.toJ(), "every probe prints [U] (context "+fmt.Sprint(ci)+", name supplied by "+level+")", J{"st": impl.St, "out": out, "err": trunc(impl.Err, 160)},
+							"a user-supplied name that collides with a built-in function does not win over the built-in")
+					}
+				}
+			}
+		}
+	}
 	// nil data / struct data at the top level
 	for _, t := range []struct {
 		data val
